@@ -77,8 +77,12 @@ def make_packages(rng, n):
             fld("Age", ["//govalid:gt=%d" % (k % 3), "//govalid:lte=150"] if k % 2 == 0 else ["//govalid:gte=1"], i64),
             fld("Name", ["//govalid:required"] + (["//govalid:minlength=2"] if k % 3 == 0 else []), s),
             fld("Addr", [], nested=[fld("City", ["//govalid:required"], s), fld("Zip", ["//govalid:numeric"] if k % 2 else ["//govalid:length=5"], s)]),
-            fld("Tags", ["//govalid:maxitems=%d" % (k + 1)], SLICE)], [])
-        order = struct("Order", [fld("Total", ["//govalid:gt=0"], f64), fld("Name", ["//govalid:required", "//govalid:alpha"], s)], [],
+            fld("Tags", ["//govalid:maxitems=%d" % (k + 1)], SLICE),
+            # equally named CEL / enum rules whose text differs per package: nothing derived from one may reach another
+            fld("Score", ["//govalid:cel=value >= %d && value <= %d" % (18 + k, 120 - k)] if k % 3 != 2 else ["//govalid:cel=value != %d" % k], i64),
+            fld("Nick", ["//govalid:cel=size(value) < %d" % (k + 5), "//govalid:enum=a%d,b,c%d" % (k, k)], s)], [])
+        order = struct("Order", [fld("Total", ["//govalid:gt=0"], f64), fld("Name", ["//govalid:required", "//govalid:alpha"], s),
+                                 fld("Note", ["//govalid:cel=value.startsWith('n%d') || value == ''" % k], s)], [],
                        gendoc=["//govalid:required"] if k % 4 == 1 else [])
         own = struct("Own%d" % k, [fld("Name", ["//govalid:email"], s), fld("Age", ["//govalid:lt=%d" % (k + 10)], i64)], [], file="y")
         from synth import named
